@@ -379,6 +379,9 @@ func (d *Dialer) tryDial() (net.Conn, error) {
 		}
 	}
 
+	// Bounded from here to the end of the HTTP/2 handshake, see Dial.
+	_ = c.SetDeadline(time.Now().Add(handshakeTimeout))
+
 	tlsConn := tls.Client(c, d.TLSConfig)
 
 	if err := tlsConn.Handshake(); err != nil {
@@ -405,9 +408,21 @@ func (d *Dialer) Dial(opts ConnOpts) (*Conn, error) {
 
 	nc := NewConn(c, opts)
 
+	// The handshake waits for the server's SETTINGS. A server that accepts the
+	// connection and then says nothing must not hold the dialing goroutine,
+	// and with it whatever lock its caller holds, for ever: tryDial has put a
+	// deadline on the connection, which comes off once the handshake is done.
 	err = nc.Handshake()
+	if err == nil {
+		err = c.SetDeadline(time.Time{})
+	}
+
 	return nc, err
 }
+
+// handshakeTimeout bounds the exchange of prefaces and SETTINGS on a new
+// connection.
+const handshakeTimeout = 10 * time.Second
 
 // SetOnDisconnect sets the callback that will fire when the HTTP/2 connection is closed.
 func (c *Conn) SetOnDisconnect(cb func(*Conn)) {
